@@ -418,16 +418,19 @@ theorem karatsuba_spec {o : Ops α} {φ : α → R} (h : Hom o φ) : ∀ (f : Na
     intro z p q tmp hok
     unfold karaOk at hok
     unfold karatsuba
-    by_cases hbase : p.length ≤ 20 ∧ q.length ≤ 20
+    simp only at hok ⊢
+    by_cases hbase : (p.length ≤ 20 ∧ q.length ≤ 20) ∨ p.length ≤ (max p.length q.length + 1) / 2 ∨
+        q.length ≤ (max p.length q.length + 1) / 2
     · rw [if_pos hbase] at hok ⊢
       simp only [decide_eq_true_eq] at hok
       obtain ⟨z', hz', hl, hpoly⟩ := basicMul_spec h z p q hok.1 hok.2.1 hok.2.2
       exact ⟨z', tmp, by rw [hz']; rfl, hl, rfl, hpoly⟩
     · rw [if_neg hbase] at hok ⊢
       simp only [Bool.and_eq_true, decide_eq_true_eq] at hok
-      obtain ⟨⟨⟨⟨hz1, ht1, hp1, hq1, hz3⟩, ok1⟩, ok2⟩, ok3⟩ := hok
-      simp only
+      obtain ⟨⟨⟨⟨hz1, ht1, hz3⟩, ok1⟩, ok2⟩, ok3⟩ := hok
       set half := (max p.length q.length + 1) / 2 with hhalf
+      have hp1 : half < p.length := by omega
+      have hq1 : half < q.length := by omega
       have hM1 := le_max_left p.length q.length
       have hM2 := le_max_right p.length q.length
       have hp2 : p.length ≤ 2 * half := by omega
@@ -522,43 +525,60 @@ theorem karatsuba_spec {o : Ops α} {φ : α → R} (h : Hom o φ) : ∀ (f : Na
         ring
 
 
-/-- equal operand lengths are always in the domain: `|z| ≥ 2l`, `|tmp| ≥ 3l`, fuel `f + 1` for
-`l ≤ 20·2^f` -/
-theorem karaOk_equal : ∀ (f l zl tl : Nat), 1 ≤ l → l ≤ 20 * 2 ^ f → 2 * l ≤ zl → 3 * l ≤ tl →
-    karaOk (f + 1) l l zl tl = true := by
+/-- **every pair of operand lengths is in the domain** (after the fix): `|z| ≥ lp + lq`,
+`|tmp| ≥ 3·max(lp, lq)`, fuel `f + 1` for `max(lp, lq) ≤ 20·2^f` -/
+theorem karaOk_total : ∀ (f lp lq zl tl : Nat), 1 ≤ lp → 1 ≤ lq → max lp lq ≤ 20 * 2 ^ f → lp + lq ≤ zl →
+    3 * max lp lq ≤ tl → karaOk (f + 1) lp lq zl tl = true := by
   intro f
   induction f with
   | zero =>
-    intro l zl tl h1 h2 h3 h4
+    intro lp lq zl tl h1 h2 h3 h4 h5
+    have hM1 := le_max_left lp lq
+    have hM2 := le_max_right lp lq
     unfold karaOk
-    rw [if_pos (by omega)]
+    simp only
+    rw [if_pos (Or.inl (by omega))]
     simp only [decide_eq_true_eq]; omega
   | succ f ih =>
-    intro l zl tl h1 h2 h3 h4
+    intro lp lq zl tl h1 h2 h3 h4 h5
+    have hM1 := le_max_left lp lq
+    have hM2 := le_max_right lp lq
+    have hMx : max lp lq = lp ∨ max lp lq = lq := by
+      rcases le_total lp lq with h | h
+      · right; exact max_eq_right h
+      · left; exact max_eq_left h
     unfold karaOk
-    by_cases hb : l ≤ 20 ∧ l ≤ 20
+    simp only
+    set half := (max lp lq + 1) / 2 with hhalf
+    by_cases hb : (lp ≤ 20 ∧ lq ≤ 20) ∨ lp ≤ half ∨ lq ≤ half
     · rw [if_pos hb]; simp only [decide_eq_true_eq]; omega
     · rw [if_neg hb]
-      simp only [Nat.max_self, Bool.and_eq_true, decide_eq_true_eq]
+      simp only [Bool.and_eq_true, decide_eq_true_eq]
       have hpow : 2 ^ (f + 1) = 2 * 2 ^ f := by rw [pow_succ]; ring
-      have hl : 21 ≤ l := by omega
+      have hmm : max half half = half := max_self half
+      have hM3 : max (lp - half) (lq - half) ≤ half := max_le (by omega) (by omega)
       refine ⟨⟨⟨by omega, ?_⟩, ?_⟩, ?_⟩
-      · exact ih _ _ _ (by omega) (by omega) (by omega) (by omega)
-      · exact ih _ _ _ (by omega) (by omega) (by omega) (by omega)
-      · exact ih _ _ _ (by omega) (by omega) (by omega) (by omega)
+      · exact ih _ _ _ _ (by omega) (by omega) (by rw [hmm]; omega) (by omega) (by rw [hmm]; omega)
+      · exact ih _ _ _ _ (by omega) (by omega) (by rw [hmm]; omega) (by omega) (by rw [hmm]; omega)
+      · exact ih _ _ _ _ (by omega) (by omega) (by omega) (by omega) (by omega)
 
-/-- **`Poly::mul_karatsuba`** on operands of equal length `1 ≤ l ≤ 20·2^63` (`z` of `2l`, `tmp` of
-`6l` zero entries): no panic site is reached and the result is the schoolbook product padded with
-zeros to `2l` coefficients. -/
+theorem karaOk_equal (f l zl tl : Nat) (h1 : 1 ≤ l) (h2 : l ≤ 20 * 2 ^ f) (h3 : 2 * l ≤ zl) (h4 : 3 * l ≤ tl) :
+    karaOk (f + 1) l l zl tl = true :=
+  karaOk_total f l l zl tl h1 h1 (by rw [max_self]; exact h2) (by omega) (by rw [max_self]; exact h4)
+
+/-- **`Poly::mul_karatsuba`** for ALL operand lengths `1 ≤ |q| ≤ |p| ≤ 20·2^63` (`z` of `2|p|`, `tmp` of
+`6|p|` zero entries): no panic site is reached and the result is the schoolbook product padded with
+zeros to `2|p|` coefficients. -/
 theorem mulKaratsuba_spec {o : Ops α} {φ : α → R} (h : Hom o φ) (p q : List α)
-    (hl : p.length = q.length) (h1 : 1 ≤ p.length) (h2 : p.length ≤ 20 * 2 ^ 63) :
+    (hl : q.length ≤ p.length) (h1 : 1 ≤ q.length) (h2 : p.length ≤ 20 * 2 ^ 63) :
     ∃ z', mulKaratsuba o p q = some z' ∧ z'.length = 2 * p.length ∧
       poly (z'.map φ) = poly (p.map φ) * poly (q.map φ) := by
   unfold mulKaratsuba FUEL
   obtain ⟨z', tmp', e, lz, _, hp⟩ := karatsuba_spec h 64 (List.replicate (2 * p.length) o.zero) p q
     (List.replicate (6 * p.length) o.zero) (by
-      rw [← hl, List.length_replicate, List.length_replicate]
-      exact karaOk_equal 63 _ _ _ h1 h2 (le_refl _) (by omega))
+      rw [List.length_replicate, List.length_replicate]
+      exact karaOk_total 63 _ _ _ _ (by omega) h1 (by rw [max_eq_left hl]; exact h2) (by omega)
+        (by rw [max_eq_left hl]; omega))
   rw [e]
   exact ⟨z', rfl, by rw [lz, List.length_replicate], hp⟩
 
